@@ -9,6 +9,7 @@ import (
 	"os/exec"
 	"path/filepath"
 	"strings"
+	"syscall"
 
 	V "filippo.io/age/internal/zzverif"
 )
@@ -144,4 +145,107 @@ func Harness_C15_keygen_generate() {
 	V.Reach("output-ok")
 	V.Assert(code == 0, "age-keygen failed although its output was accepted")
 	V.Assert(bytes.Contains(got, []byte("\nAGE-SECRET-KEY-1")) && bytes.HasSuffix(got, []byte("\n")), "age-keygen exited with status 0 but did not write the key")
+}
+
+// ---------------------------------------------------------------------------
+// main() of age-keygen with -o FILE: the key file is opened exclusively
+// (never over an existing file) and readable by the owner only. Inside the
+// engine the flag package and os.OpenFile are models that record the call;
+// natively the real binary runs against an existing and a fresh path.
+
+type kgFlags struct {
+	bools map[string]*bool
+	strs  map[string]*string
+	apply func()
+}
+
+var kf *kgFlags
+var openedFlag int
+var openedPerm os.FileMode
+var openedName string
+var opens int
+var fileExists bool
+
+func kgBoolVar(p *bool, name string, value bool, usage string)     { *p = value; kf.bools[name] = p }
+func kgStringVar(p *string, name string, value string, usage string) { *p = value; kf.strs[name] = p }
+func kgParse()                                                       { kf.apply() }
+func kgArgs() []string                                               { return nil }
+func kgArg(i int) string                                             { return "" }
+func kgOpenFile(name string, flag int, perm os.FileMode) (*os.File, error) {
+	opens++
+	openedName, openedFlag, openedPerm = name, flag, perm
+	if fileExists && flag&os.O_EXCL != 0 {
+		return nil, errors.New("file exists")
+	}
+	return new(os.File), nil
+}
+func kgClose(f *os.File) error { return nil }
+func kgStat(f *os.File) (os.FileInfo, error) { return nil, errors.New("no stat in the model") }
+
+// Harness_C15_keygen_output_file: age-keygen -o FILE: FILE is opened exactly
+// once, write-only, created exclusively (an existing file makes the program
+// fail without touching it) and with permission bits 0600.
+func Harness_C15_keygen_output_file() {
+	exists := V.Bool("exists")
+	if !V.Symbolic() {
+		dir, derr := os.MkdirTemp("", "zzkgo")
+		if derr != nil {
+			panic(derr)
+		}
+		defer os.RemoveAll(dir)
+		target := filepath.Join(dir, "key.txt")
+		if exists {
+			os.WriteFile(target, []byte("precious"), 0644)
+		}
+		bin := filepath.Join(dir, "age-keygen")
+		if out, err := exec.Command("go", "build", "-o", bin, ".").CombinedOutput(); err != nil {
+			panic("go build failed: " + string(out))
+		}
+		old := syscall.Umask(0)
+		err := exec.Command(bin, "-o", target).Run()
+		syscall.Umask(old)
+		b, _ := os.ReadFile(target)
+		st, serr := os.Stat(target)
+		if exists {
+			V.Reach("exists")
+			V.Assert(err != nil, "age-keygen -o succeeded although the file exists")
+			V.Assert(string(b) == "precious", "age-keygen -o overwrote an existing file")
+			return
+		}
+		V.Reach("fresh")
+		V.Assert(err == nil && serr == nil && bytes.Contains(b, []byte("AGE-SECRET-KEY-1")), "age-keygen -o did not write the key file")
+		if serr == nil {
+			V.Assert(st.Mode().Perm() == 0600, "the key file is not created readable by the owner only")
+		}
+		return
+	}
+	V.InstallTape()
+	kf = &kgFlags{bools: map[string]*bool{}, strs: map[string]*string{}}
+	kf.apply = func() { *kf.strs["o"] = "key.txt" }
+	theOut = &faultyWriter{failAt: -1}
+	opens, fileExists = 0, exists
+	V.Override("flag.BoolVar", kgBoolVar)
+	V.Override("flag.StringVar", kgStringVar)
+	V.Override("flag.Parse", kgParse)
+	V.Override("flag.Args", kgArgs)
+	V.Override("flag.Arg", kgArg)
+	V.Override("os.OpenFile", kgOpenFile)
+	V.Override("(*os.File).Write", fakeFileWrite)
+	V.Override("(*os.File).Fd", fakeFileFd)
+	V.Override("(*os.File).Close", kgClose)
+	V.Override("(*os.File).Stat", kgStat)
+	code := V.ExitCode(main)
+	if code < 0 {
+		code = 0
+	}
+	if exists {
+		V.Reach("exists")
+		V.Assert(code != 0 && len(theOut.buf.Bytes()) == 0, "age-keygen -o succeeded although the file exists")
+		V.Assert(opens == 1 && openedFlag&os.O_EXCL != 0 && openedFlag&os.O_TRUNC == 0, "age-keygen -o overwrote an existing file")
+	} else {
+		V.Reach("fresh")
+		V.Assert(code == 0 && bytes.Contains(theOut.buf.Bytes(), []byte("AGE-SECRET-KEY-1")), "age-keygen -o did not write the key file")
+		V.Assert(opens == 1 && openedName == "key.txt" && openedFlag == os.O_WRONLY|os.O_CREATE|os.O_EXCL, "the key file is not opened once, write-only, with O_CREATE|O_EXCL")
+		V.Assert(openedPerm == 0600, "the key file is not created readable by the owner only")
+	}
 }
